@@ -35,7 +35,10 @@ payload_st = st.one_of(
     st.text(alphabet=st.sampled_from(list('ab"\\ {}[]:,0é\n') + ['\U0001f600']), max_size=8),
     st.binary(max_size=8),
     st.sampled_from([{'k': 1}, {'k': [1, 'a', None]}, [1, 2], {'n': {'m': 1.5}},
-                     {'half': '\ud83d'}, ['\udc00', 'x']]))     # (lone surrogates: legal JSON text)
+                     {'half': '\ud83d'}, ['\udc00', 'x'],     # (lone surrogates: legal JSON text)
+                     # non-finite floats: not JSON proper, but what this package's encoder writes
+                     # its decoder reads back
+                     {'limit': float('inf'), 'used': 12.5}, [0.25, float('-inf'), 'tail']]))
 
 
 @st.composite
@@ -101,7 +104,7 @@ def tagged(side, seq, p):
     return [tag] + list(p)
 
 
-def check_case(case, ctx=None, idle_scale=1.0):
+def _check_case(case, ctx=None, idle_scale=1.0):
     client_kind = case['impl']
     server_kind = client_kind if case.get('server', 'same') == 'same' else \
         ('async' if client_kind == 'thread' else 'thread')
@@ -328,6 +331,13 @@ def all_match(exp, got, ordered):
         else:
             return False
     return not rest
+
+
+def check_case(case, ctx=None, idle_scale=1.0):
+    from vk import watchdog
+    impl = case.get('impl', '?')
+    watchdog.run_case(lambda: _check_case(case, ctx, idle_scale=idle_scale),
+                      lambda msg: V(impl, 'step-never-completes', 'busy-loop', msg, dict(case)))
 
 
 def run_shard(ctx):
